@@ -76,7 +76,7 @@ def run_tlc(module: str, cfg: str | None = None, *, workers: int = 1, env: dict 
                 raise MachineryError(f"constant {k} not in {cfg_path}")
         cfg_path = md / f"{cfg}.cfg"
         cfg_path.write_text(text)
-    cmd = ["java", "-XX:+UseParallelGC", f"-Xmx{heap}", "-cp", JAR, "tlc2.TLC",
+    cmd = ["java", "-XX:+UseParallelGC", f"-XX:ParallelGCThreads={max(2, min(8, workers))}", f"-Xmx{heap}", "-cp", JAR, "tlc2.TLC",
            "-workers", str(workers), "-metadir", str(md / "states"), "-noGenerateSpecTE",
            "-config", str(cfg_path)]
     if coverage:
@@ -133,13 +133,15 @@ _TUPLE = re.compile(r'^<<"(ACCEPT|REJECT)", (\d+), (\d+), "([^"]*)">>$')
 
 
 def validate_traces(module: str, traces: list, *, cfg: str | None = None, chunk: int = 4000,
-                    jobs: int = 8, timeout: int = 3600, env: dict | None = None) -> tuple[list[dict], TlcResult | None]:
+                    jobs: int = 16, timeout: int = 3600, env: dict | None = None) -> tuple[list[dict], TlcResult | None]:
     """Validate `traces` (list of event lists) against SPEC/<module>.tla.
 
     Returns one verdict per trace: {"verdict": "ACCEPT"|"REJECT", "l": int, "clause": str}.
     """
     from concurrent.futures import ThreadPoolExecutor
     verdicts: list[dict | None] = [None] * len(traces)
+    jobs = min(jobs, 16)
+    chunk = max(100, min(chunk, -(-len(traces) // 16)))      # spread over 16 JVMs, at most `chunk` traces each
     chunks = [(i, traces[i:i + chunk]) for i in range(0, len(traces), chunk)]
     agg: list[TlcResult] = []
 
